@@ -51,32 +51,128 @@ func buildTemplates(tier string) []tmpl {
 	}
 	// mixed kinds on siblings and on a diamond
 	out = append(out,
-		tmpl{"siblings/mixed", shapes[0].flavors, []Method{{0, "before", "m"}, {1, "after", "m"}, {1, "primary", "m"}}},
-		tmpl{"siblings/mixed2", shapes[0].flavors, []Method{{0, "after", "m"}, {1, "after", "m"}, {0, "primary", "m"}}},
-		tmpl{"diamond/mixed", shapes[4].flavors, []Method{{0, "primary", "m"}, {2, "before", "m"}, {1, "whopper", "m"}}},
+		tmpl{"siblings/mixed", shapes[0].flavors, []Method{{F: 0, Kind: "before", Msg: "m"}, {F: 1, Kind: "after", Msg: "m"}, {F: 1, Kind: "primary", Msg: "m"}}},
+		tmpl{"siblings/mixed2", shapes[0].flavors, []Method{{F: 0, Kind: "after", Msg: "m"}, {F: 1, Kind: "after", Msg: "m"}, {F: 0, Kind: "primary", Msg: "m"}}},
+		tmpl{"diamond/mixed", shapes[4].flavors, []Method{{F: 0, Kind: "primary", Msg: "m"}, {F: 2, Kind: "before", Msg: "m"}, {F: 1, Kind: "whopper", Msg: "m"}}},
 		// a vanilla message: the primary of the second component
-		tmpl{"siblings/init", shapes[0].flavors, []Method{{1, "primary", "init"}}},
-		tmpl{"siblings/init2", shapes[0].flavors, []Method{{0, "before", "init"}, {1, "primary", "init"}}},
-		tmpl{"siblings/init3", shapes[0].flavors, []Method{{2, "whopper", "init"}, {1, "primary", "init"}}},
+		tmpl{"siblings/init", shapes[0].flavors, []Method{{F: 1, Kind: "primary", Msg: "init"}}},
+		tmpl{"siblings/init2", shapes[0].flavors, []Method{{F: 0, Kind: "before", Msg: "init"}, {F: 1, Kind: "primary", Msg: "init"}}},
+		tmpl{"siblings/init3", shapes[0].flavors, []Method{{F: 2, Kind: "whopper", Msg: "init"}, {F: 1, Kind: "primary", Msg: "init"}}},
 		// an initable variable of a component, the user restricts its own
 		tmpl{"chain/initable", []Flavor{
 			{Vars: []Var{{N: 0, D: 10}}, Get: []string{"v0"}, Ini: []string{"v0"}},
 			{Comps: []int{0}, Vars: []Var{{N: 1, D: 21}}, Ini: []string{"v1"}}},
-			[]Method{{0, "before", "v0"}}},
-		tmpl{"chain/init", shapes[2].flavors, []Method{{0, "primary", "init"}, {1, "after", "init"}}},
+			[]Method{{F: 0, Kind: "before", Msg: "v0"}}},
+		tmpl{"chain/init", shapes[2].flavors, []Method{{F: 0, Kind: "primary", Msg: "init"}, {F: 1, Kind: "after", Msg: "init"}}},
 		// accessors inherited from two components, daemons on an accessor
 		tmpl{"siblings/getter", []Flavor{
 			{Vars: []Var{{N: 0, D: 10}}, Get: []string{"v0"}},
 			{Vars: []Var{{N: 0, D: 20}, {N: 1, D: 21}}, Get: []string{"v0", "v1"}, Set: []string{"v1"}},
 			{Comps: []int{0, 1}}},
-			[]Method{{0, "before", "v1"}, {1, "after", "v1"}, {0, "whopper", "set-v1"}}},
+			[]Method{{F: 0, Kind: "before", Msg: "v1"}, {F: 1, Kind: "after", Msg: "v1"}, {F: 0, Kind: "whopper", Msg: "set-v1"}}},
 		tmpl{"siblings-rev/getter", []Flavor{
 			{Vars: []Var{{N: 0, D: 10}}, Get: []string{"v0"}, Keys: []Key{{N: 0, D: 5}}},
 			{Vars: []Var{{N: 0, D: 20}, {N: 1, D: 21}}, Get: []string{"v0", "v1"}, Keys: []Key{{N: 0, D: 6}, {N: 2, NoDef: true}}},
 			{Comps: []int{1, 0}, Vars: []Var{{N: 1, D: 31}}}},
-			[]Method{{1, "primary", "v0"}, {0, "before", "v0"}}},
+			[]Method{{F: 1, Kind: "primary", Msg: "v0"}, {F: 0, Kind: "before", Msg: "v0"}}},
+	)
+	vr := func(n, d int) Var { return Var{N: n, D: d} }
+	kd := func(n, d int) Key { return Key{N: n, D: d} }
+	g012 := []string{"v0", "v1", "v2"}
+	out = append(out,
+		// plain defaults and keyword defaults over a 3-level chain: the nearest flavor wins
+		tmpl{"defaults/chain3", []Flavor{
+			{Vars: []Var{vr(0, 10), vr(1, 11), vr(2, 12)}, Get: g012, Keys: []Key{kd(0, 15), kd(1, 16)}},
+			{Comps: []int{0}, Vars: []Var{vr(0, 20), vr(1, 21)}, Keys: []Key{kd(0, 25)}},
+			{Comps: []int{1}, Vars: []Var{vr(0, 30)}}},
+			[]Method{{F: 0, Kind: "before", Msg: "v0"}}},
+		tmpl{"defaults/chain3-gap", []Flavor{
+			{Vars: []Var{vr(0, 10), vr(1, 11)}, Get: []string{"v0", "v1"}, Keys: []Key{kd(0, 15)}},
+			{Comps: []int{0}, Vars: []Var{vr(0, 20), vr(1, 21)}, Keys: []Key{kd(0, 25)}},
+			{Comps: []int{1}},
+			{Comps: []int{2}, Vars: []Var{vr(1, 41)}}},
+			[]Method{{F: 1, Kind: "after", Msg: "v1"}}},
+		// diamond: depth-first puts the shared base before the second branch
+		tmpl{"defaults/diamond", []Flavor{
+			{Vars: []Var{vr(0, 10), vr(1, 11), vr(2, 12)}, Get: g012, Keys: []Key{kd(0, 15), kd(1, 16)}},
+			{Comps: []int{0}, Vars: []Var{vr(0, 20)}, Keys: []Key{kd(0, 25)}},
+			{Comps: []int{0}, Vars: []Var{vr(0, 30), vr(1, 31)}, Keys: []Key{kd(0, 35), kd(1, 36)}},
+			{Comps: []int{1, 2}}},
+			[]Method{{F: 2, Kind: "before", Msg: "v1"}}},
+		tmpl{"defaults/diamond-rev", []Flavor{
+			{Vars: []Var{vr(0, 10), vr(1, 11)}, Get: []string{"v0", "v1"}},
+			{Comps: []int{0}, Vars: []Var{vr(0, 20)}},
+			{Comps: []int{0}, Vars: []Var{vr(0, 30), vr(1, 31)}},
+			{Comps: []int{2, 1}, Vars: []Var{vr(2, 42)}}},
+			nil},
+		tmpl{"defaults/siblings-deep", []Flavor{
+			{Vars: []Var{vr(0, 10), vr(1, 11)}, Keys: []Key{kd(0, 15)}},
+			{Comps: []int{0}, Vars: []Var{vr(1, 21)}},
+			{Vars: []Var{vr(0, 30), vr(1, 31), vr(2, 32)}, Keys: []Key{kd(0, 35), kd(1, 36)}},
+			{Comps: []int{1, 2}}, {Comps: []int{2, 1}}},
+			nil},
+		// a variable named without a default does not give one
+		tmpl{"defaults/no-default-shadow", []Flavor{
+			{Vars: []Var{vr(0, 10)}, Get: []string{"v0"}},
+			{Comps: []int{0}, Vars: []Var{{N: 0, ND: true}}}},
+			nil},
+		// the bare options on flavors with components: accessors for inherited variables
+		tmpl{"bare/chain", []Flavor{
+			{Vars: []Var{vr(0, 10), vr(1, 11)}},
+			{Comps: []int{0}, Vars: []Var{vr(2, 22)}, GetAll: true, SetAll: true},
+			{Comps: []int{1}}},
+			[]Method{{F: 0, Kind: "before", Msg: "v0"}, {F: 2, Kind: "after", Msg: "set-v1"}}},
+		tmpl{"bare/siblings", []Flavor{
+			{Vars: []Var{vr(0, 10)}, Get: []string{"v0"}},
+			{Vars: []Var{vr(0, 20), vr(1, 21)}},
+			{Comps: []int{1}, GetAll: true, IniAll: true},
+			{Comps: []int{0, 2}}},
+			[]Method{{F: 0, Kind: "primary", Msg: "v1"}, {F: 1, Kind: "before", Msg: "v0"}}},
+		tmpl{"bare/initable", []Flavor{
+			{Vars: []Var{vr(0, 10)}, Ini: []string{"v0"}},
+			{Comps: []int{0}, Vars: []Var{vr(1, 21)}, IniAll: true},
+			{Comps: []int{1}, Vars: []Var{vr(2, 32)}}},
+			nil},
+		// whoppers that do not continue
+		tmpl{"stop/siblings", shapes[0].flavors, []Method{{F: 0, Kind: "whopper", Msg: "m", Stop: true}, {F: 1, Kind: "before", Msg: "m"}, {F: 1, Kind: "primary", Msg: "m"}}},
+		tmpl{"stop/inner", shapes[0].flavors, []Method{{F: 2, Kind: "whopper", Msg: "m"}, {F: 1, Kind: "whopper", Msg: "m", Stop: true}, {F: 0, Kind: "after", Msg: "m"}}},
+		tmpl{"stop/chain3", shapes[2].flavors, []Method{{F: 2, Kind: "whopper", Msg: "m"}, {F: 1, Kind: "whopper", Msg: "m", Stop: true}, {F: 0, Kind: "whopper", Msg: "m"}}},
+		tmpl{"stop/setter", []Flavor{
+			{Vars: []Var{vr(0, 10)}, Get: []string{"v0"}, Set: []string{"v0"}},
+			{Comps: []int{0}}},
+			[]Method{{F: 1, Kind: "whopper", Msg: "set-v0", Stop: true}, {F: 0, Kind: "before", Msg: "set-v0"}}},
+		// :included-flavors: the included flavor follows the includer's components
+		tmpl{"included/siblings", []Flavor{
+			{Vars: []Var{vr(0, 10)}, Get: []string{"v0"}},
+			{Vars: []Var{vr(0, 20), vr(1, 21)}, Get: []string{"v1"}},
+			{Vars: []Var{vr(0, 30)}, Incl: []int{0}},
+			{Comps: []int{2, 1}}},
+			[]Method{{F: 0, Kind: "before", Msg: "m"}, {F: 1, Kind: "before", Msg: "m"}}},
+		tmpl{"included/last", []Flavor{
+			{Vars: []Var{vr(0, 10)}, Get: []string{"v0"}},
+			{}, {Incl: []int{0}}, {Comps: []int{1, 2}}},
+			[]Method{{F: 0, Kind: "after", Msg: "m"}, {F: 1, Kind: "after", Msg: "m"}, {F: 2, Kind: "primary", Msg: "m"}}},
+		// an abstract component with requirements that are met
+		tmpl{"abstract/required-met", []Flavor{
+			{Vars: []Var{vr(0, 10)}, Get: []string{"v0"}},
+			{Abstract: true, ReqVars: []string{"v0"}, ReqFlavors: []int{0}},
+			{Comps: []int{1, 0}}},
+			[]Method{{F: 1, Kind: "before", Msg: "m"}, {F: 0, Kind: "primary", Msg: "m"}}},
 	)
 	return out
+}
+
+// errTemplates: the defflavor of the last flavor has to be rejected.
+func errTemplates() []Case {
+	vr := func(n, d int) Var { return Var{N: n, D: d} }
+	return []Case{
+		{Tmpl: "abstract/required-flavor-missing", Flavors: []Flavor{
+			{Vars: []Var{vr(0, 10)}}, {Abstract: true, ReqFlavors: []int{0}}, {Comps: []int{1}}},
+			Steps: []Step{{Op: "flavor", F: 0}, {Op: "flavor", F: 1}, {Op: "flavor-err", F: 2}}},
+		{Tmpl: "abstract/required-variable-missing", Flavors: []Flavor{
+			{Vars: []Var{vr(0, 10)}}, {Abstract: true, ReqVars: []string{"v1"}}, {Comps: []int{1, 0}}},
+			Steps: []Step{{Op: "flavor", F: 0}, {Op: "flavor", F: 1}, {Op: "flavor-err", F: 2}}},
+	}
 }
 
 // extensions enumerates every admissible order of the flavor and method forms
@@ -101,7 +197,7 @@ func extensions(t *tmpl, limit int) [][]Step {
 				continue
 			}
 			ok := true
-			for _, c := range t.flavors[f].Comps {
+			for _, c := range t.flavors[f].deps() {
 				if !doneF[c] {
 					ok = false
 				}
@@ -148,9 +244,10 @@ func tmplBlock(tier string) *block {
 	for _, t := range buildTemplates(tier) {
 		t := t
 		for _, steps := range extensions(&t, limit) {
-			b.cases = append(b.cases, Case{Tmpl: t.name, Flavors: t.flavors, Methods: t.methods, Steps: steps})
+			b.cases = append(b.cases, Case{Tmpl: t.name, Rel: true, Flavors: t.flavors, Methods: t.methods, Steps: steps})
 		}
 	}
+	b.cases = append(b.cases, errTemplates()...)
 	blocks[tier] = b
 	return b
 }
@@ -158,9 +255,9 @@ func tmplBlock(tier string) *block {
 func nCases(tier string) int {
 	n := len(tmplBlock(tier).cases)
 	if tier == "thorough" {
-		return n + 150000
+		return n + 110000
 	}
-	return n + 12000
+	return n + 8000
 }
 
 // ---- seeded cases -------------------------------------------------------
@@ -186,7 +283,10 @@ func gen(r *rand.Rand, i int, tier string) Case {
 		return b.cases[i]
 	}
 	var c Case
+	c.Rel = i%2 == 0
 	nf := 1 + weighted(r, []int{1, 3, 6, 7, 7})
+	varDense := r.IntN(4) == 0 // most flavors declare v0 and v1: defaults collide along chains and diamonds
+	ndMode := r.IntN(8) == 0   // minority: variables named without a default next to defaults
 	for k := 0; k < nf; k++ {
 		var f Flavor
 		if 0 < k && r.IntN(5) != 0 {
@@ -200,8 +300,16 @@ func gen(r *rand.Rand, i int, tier string) Case {
 		}
 		// variables
 		for n := 0; n < 3; n++ {
-			if r.IntN(4) == 0 {
-				f.Vars = append(f.Vars, Var{N: n, D: 100*(k+1) + n})
+			p := 25
+			if varDense {
+				p = []int{70, 55, 25}[n]
+			}
+			if r.IntN(100) < p {
+				v := Var{N: n, D: 100*(k+1) + n}
+				if ndMode && r.IntN(3) == 0 {
+					v = Var{N: n, ND: true}
+				}
+				f.Vars = append(f.Vars, v)
 			}
 		}
 		if r.IntN(10) == 0 {
@@ -215,17 +323,18 @@ func gen(r *rand.Rand, i int, tier string) Case {
 				f.Set = append(f.Set, v.name())
 			}
 		}
-		if len(f.Comps) == 0 && 0 < len(f.Vars) {
-			// the bare options: only where "all variables" can only mean the flavor's own
-			if r.IntN(4) == 0 {
+		// the bare options: accessors for every variable of the flavor,
+		// inherited ones included
+		if 0 < len(f.Vars) || 0 < len(f.Comps) {
+			if r.IntN(5) == 0 {
 				f.GetAll, f.Get = true, nil
 			}
-			if r.IntN(6) == 0 {
+			if r.IntN(8) == 0 {
 				f.SetAll, f.Set = true, nil
 			}
 		}
-		if 0 < len(f.Vars) && r.IntN(7) == 0 {
-			if len(f.Comps) == 0 && r.IntN(3) == 0 {
+		if r.IntN(7) == 0 {
+			if r.IntN(3) == 0 || len(f.Vars) == 0 {
 				f.IniAll = true
 			} else {
 				f.Ini = append(f.Ini, f.Vars[r.IntN(len(f.Vars))].name())
@@ -240,23 +349,21 @@ func gen(r *rand.Rand, i int, tier string) Case {
 		}
 		c.Flavors = append(c.Flavors, f)
 	}
+	decorate(r, &c)
 	// accessor names that exist somewhere in the case
 	var getters, setters []string
-	seenA := map[string]bool{}
-	for _, f := range c.Flavors {
-		for _, v := range f.Vars {
-			if (f.GetAll || has(f.Get, v.name())) && !seenA[v.name()] {
-				seenA[v.name()] = true
-				getters = append(getters, v.name())
+	for _, msg := range messageUniverse(&c) {
+		switch {
+		case len(msg) > 4 && msg[:4] == "set-":
+			if !has(setters, msg) {
+				setters = append(setters, msg)
 			}
-			if (f.SetAll || has(f.Set, v.name())) && !seenA["set-"+v.name()] {
-				seenA["set-"+v.name()] = true
-				setters = append(setters, "set-"+v.name())
+		case arity(msg) == 0:
+			if !has(getters, msg) {
+				getters = append(getters, msg)
 			}
 		}
 	}
-	sort.Strings(getters)
-	sort.Strings(setters)
 	nm := 2 + r.IntN(11)
 	dense := r.IntN(4) == 0 // every method on :m, two or three per flavor
 	if dense {
@@ -265,6 +372,7 @@ func gen(r *rand.Rand, i int, tier string) Case {
 	seenM := map[Method]bool{}
 	for k := 0; k < nm; k++ {
 		m := Method{F: r.IntN(nf), Kind: kinds[weighted(r, []int{3, 3, 3, 2})]}
+		stop := m.Kind == "whopper" && r.IntN(5) == 0
 		sel := weighted(r, []int{62, 8, 10, 7, 13})
 		if dense {
 			sel = 0
@@ -293,6 +401,7 @@ func gen(r *rand.Rand, i int, tier string) Case {
 			continue
 		}
 		seenM[m] = true
+		m.Stop = stop
 		c.Methods = append(c.Methods, m)
 	}
 	// history: a random admissible order under one of three biases
@@ -307,7 +416,7 @@ func gen(r *rand.Rand, i int, tier string) Case {
 				continue
 			}
 			ok := true
-			for _, cp := range c.Flavors[f].Comps {
+			for _, cp := range c.Flavors[f].deps() {
 				if !doneF[cp] {
 					ok = false
 				}
@@ -361,7 +470,7 @@ func gen(r *rand.Rand, i int, tier string) Case {
 		msgs := messageUniverse(&c)
 		for n := 1 + r.IntN(2); 0 < n; n-- {
 			f := r.IntN(nf)
-			made := false
+			made := c.Flavors[f].Abstract
 			for _, s := range c.Steps {
 				if s.Op == "inst" && s.F == f {
 					made = true
@@ -385,6 +494,100 @@ func gen(r *rand.Rand, i int, tier string) Case {
 		}
 	}
 	return c
+}
+
+// decorate adds, in a minority of cases, an :included-flavors option, an
+// abstract flavor and requirements of an abstract flavor that are met.
+func decorate(r *rand.Rand, c *Case) {
+	nf := len(c.Flavors)
+	used := make([]bool, nf)
+	for _, f := range c.Flavors {
+		for _, cp := range f.Comps {
+			used[cp] = true
+		}
+	}
+	if r.IntN(3) == 0 {
+		// G: no components, nobody's component; X: defined later, not G's user anyway
+		var gs []int
+		for g, f := range c.Flavors {
+			if len(f.Comps) == 0 && !used[g] && g < nf-1 {
+				gs = append(gs, g)
+			}
+		}
+		if 0 < len(gs) {
+			g := fw_pick(r, gs)
+			x := g + 1 + r.IntN(nf-1-g)
+			fx := &c.Flavors[x]
+			// the includer has no components of its own (where the included
+			// flavor goes relative to them is not specified) and no bare
+			// options (they are processed before the inclusion)
+			if len(fx.Comps) == 0 && !fx.GetAll && !fx.SetAll && !fx.IniAll {
+				fx.Incl = []int{g}
+				used[g] = true
+			}
+		}
+	}
+	if r.IntN(6) == 0 {
+		// an abstract flavor: one that is a component of some other flavor and includes nothing
+		var xs []int
+		for x, f := range c.Flavors {
+			if used[x] && len(f.Incl) == 0 {
+				isIncluded := false
+				for _, o := range c.Flavors {
+					for _, g := range o.Incl {
+						if g == x {
+							isIncluded = true
+						}
+					}
+				}
+				if !isIncluded {
+					xs = append(xs, x)
+				}
+			}
+		}
+		if 0 < len(xs) {
+			x := fw_pick(r, xs)
+			c.Flavors[x].Abstract = true
+			w := newWorld(c)
+			// requirements every concrete user meets
+			var users []int
+			for t := range c.Flavors {
+				if t == x || c.Flavors[t].Abstract {
+					continue
+				}
+				for _, f := range w.prec(t) {
+					if f == x {
+						users = append(users, t)
+					}
+				}
+			}
+			for _, v := range []string{"v0", "v1", "v2"} {
+				ok := 0 < len(users)
+				for _, t := range users {
+					ok = ok && w.hasVar(t, v)
+				}
+				if ok && r.IntN(2) == 0 {
+					c.Flavors[x].ReqVars = append(c.Flavors[x].ReqVars, v)
+				}
+			}
+			for rf := range c.Flavors {
+				if rf == x {
+					continue
+				}
+				ok := 0 < len(users)
+				for _, t := range users {
+					in := false
+					for _, f := range w.prec(t)[1:] {
+						in = in || f == rf
+					}
+					ok = ok && in
+				}
+				if ok && r.IntN(2) == 0 {
+					c.Flavors[x].ReqFlavors = append(c.Flavors[x].ReqFlavors, rf)
+				}
+			}
+		}
+	}
 }
 
 func insertStep(steps []Step, pos int, s Step) []Step {
@@ -419,12 +622,17 @@ func messageUniverse(c *Case) []string {
 	for _, m := range c.Methods {
 		classify(m.Msg)
 	}
+	anyGet, anySet := false, false
+	for _, f := range c.Flavors {
+		anyGet = anyGet || f.GetAll
+		anySet = anySet || f.SetAll
+	}
 	for _, f := range c.Flavors {
 		for _, v := range f.Vars {
-			if f.GetAll || has(f.Get, v.name()) {
+			if anyGet || has(f.Get, v.name()) {
 				get[v.name()] = true
 			}
-			if f.SetAll || has(f.Set, v.name()) {
+			if anySet || has(f.Set, v.name()) {
 				set["set-"+v.name()] = true
 			}
 		}
